@@ -207,6 +207,76 @@ def op_superposition_fails(case):
     return None
 
 
+def _cauchy_pair(a, b):
+    D, P = a.shape[:2]
+    a2, b2 = a.reshape(D, P, -1), b.reshape(D, P, -1)
+    out = np.zeros((D, P))
+    for d in range(D):
+        for k in range(d + 1):
+            out[d] += np.sum(a2[k] * b2[d - k], axis=1)
+    return out
+
+
+# operations that are not differentiable (or whose factors are not unique) at the generated points: rank-deficient and
+# full QR, repeated eigenvalues; operations defined on symmetric matrices get symmetric directions
+OP_ADJOINT_SKIP = {'qr:rankdef', 'qr:eps', 'qr_full', 'eigh1', 'eigh1:mixed', 'eigh:mixed'}
+OP_ADJOINT_SYM = {'cholesky', 'eigh'}
+
+
+def op_adjoint_fails(case):
+    """the adjoint identity of C03 for one registered operation driven through the tracer: with random output adjoints ybar_i
+    and input directions v_j, sum_j <xbar_j, v_j> == sum_i <ybar_i, F_i'(x) v> modulo t^D, the tangent F'(x) v taken from
+    forward propagation alone (degree doubling: coefficients D..2D-1 of F(x + t^D v) - F(x))"""
+    import ops
+    if case['op'] in OP_ADJOINT_SKIP:
+        return None
+    full = _op_full(case)
+    if full is None:
+        return None
+    ys, xbars = full
+    D, P = case['D'], case['P']
+    r = np.random.RandomState(case.get('seed', 0) % (1 << 31))
+    vs = []
+    sym = case['op'] in OP_ADJOINT_SYM
+
+    def pad(a):
+        z = np.zeros((2 * D,) + a.shape[1:])
+        z[:D] = a
+        return z
+
+    def pad_v(a):
+        v = np.round(r.uniform(-1, 1, size=a.shape) * 8) / 8
+        if sym and v.ndim == 4 and v.shape[2] == v.shape[3]:
+            v = (v + v.transpose(0, 1, 3, 2)) / 2           # the operation is defined on symmetric matrices only
+        vs.append(v)
+        z = pad(a)
+        z[D:] = v
+        return z
+    try:
+        with np.errstate(all='ignore'):
+            s2, y2 = ops.call(ops.map_U(case, lambda a: pad(np.array(a, dtype=float))))
+            s3, y3 = ops.call(ops.map_U(case, lambda a: pad_v(np.array(a, dtype=float))))
+    except Exception:
+        return None
+    if s2 != 'ok' or s3 != 'ok':
+        return None
+    y2 = [o for o in y2 if isinstance(o, np.ndarray) and o.ndim >= 2 and o.shape[0] == 2 * D]
+    y3 = [o for o in y3 if isinstance(o, np.ndarray) and o.ndim >= 2 and o.shape[0] == 2 * D]
+    if len(y2) != len(ys) or len(vs) != len(xbars) or any(a.shape[1:] != b.shape[1:] for a, b in zip(y2, ys)):
+        return None
+    if not all(np.all(np.isfinite(a)) and np.all(np.isfinite(b)) for a, b in zip(y2, y3)):
+        return None
+    if any(np.iscomplexobj(a) for a in list(ys) + list(xbars) + list(y2) + list(y3)):
+        return None          # complex values: the real inner product below does not apply (covered by the fft programs)
+    lhs = sum(_cauchy_pair(xb, v) for xb, v in zip(xbars, vs))
+    rhs = sum(_cauchy_pair(_op_seed(case, i, ys[i].shape), (y3[i] - y2[i])[D:]) for i in range(len(ys)))
+    scale = max(1.0, float(np.max(np.abs(lhs))), float(np.max(np.abs(rhs))))
+    if np.max(np.abs(lhs - rhs)) > 1e-7 * scale:
+        d_bad = int(np.argmax(np.max(np.abs(lhs - rhs), axis=1) > 1e-7 * scale))
+        return "adjoint-op-%s: <xbar,v> != <ybar,F'(x)v> at order %d (%.6g vs %.6g)" % (case['op'], d_bad, lhs[d_bad].ravel()[0], rhs[d_bad].ravel()[0])
+    return None
+
+
 def reversible_ops(for_truncation=True):
     import ops
     return [n for n in sorted(ops.OPS) if not n.startswith('ibin') and (not for_truncation or 'no-trunc' not in ops.OPS[n]['tags'])]
